@@ -130,7 +130,7 @@ class C20(Check):
                   "events (database.py's calls and SQLite statements) plus one point half-way through the backup copy.")
     technique = "crash-point enumeration (fork + os._exit at every traced call/statement, single and double faults) over Hypothesis-generated v1 databases, with row/schema/backup-bytes oracles"
     assumptions = ["a killed process leaves the files exactly as they are at the crash event; SQLite rolls back a dead writer's transaction on next open"]
-    quick = dict(examples=120, workers=8)
+    quick = dict(examples=400, workers=8)
     thorough = dict(examples=2000, workers=16)
 
     def strategy(self, tier):
